@@ -1270,6 +1270,33 @@ class _TakeND(Op):
         return v[..., numpy.array(p[0], dtype=int)]
 
 
+@op('argsum')
+class _ArgSum(Op):
+    '''loop sums whose LENGTH is an argument (n, int scalar in [0,3]):
+    variant 0: sum_{l<n} (l+1)           argument-free body, the loop depends on n only through its length
+    variant 1: sum_{l<n} x[l]            body uses the operand
+    variant 2: x * sum_{l<n} (l+1)       argument-free loop used by an argument-dependent expression'''
+
+    def params(self, t):
+        return [(v,) for v in (0, 1, 2)] if t == ((3,), 'f') else []
+
+    def ty(self, p, t):
+        if t != ((3,), 'f'):
+            raise IllTyped
+        return ((3,) if p[0] == 2 else ()), 'f'
+
+    def build(self, ev, p, x):
+        n = ev.InRange(ev.Argument('n', (), int), ev.constant(4))
+        i = ev.loop_index('q', n)
+        if p[0] == 1:
+            return ev.loop_sum(ev.get(x, 0, i), i)
+        total = ev.loop_sum(ev.astype(i + ev.constant(1), float), i)
+        return total if p[0] == 0 else x * ev.insertaxis(total, 0, ev.constant(3))
+
+    def ref(self, p, v):
+        raise NotImplementedError   # needs the environment: handled in ref()
+
+
 # ------------------------------------------------------------------ interpretation
 
 def typeof(term, _memo=None):
@@ -1309,6 +1336,13 @@ def ref(term, env, memo=None):
         r = numpy.zeros(shape, dtype=npdtype(kind))
         for i in range(length):
             r = r + ref(body, dict(env, **{'@' + lname: i}), None if freevars(body) else memo)
+    elif name == 'argsum':
+        x = ref(term[2], env, memo)
+        n = int(env['n'])
+        if not 0 <= n <= 3:
+            raise OutOfDomain
+        tot = float(sum(l + 1 for l in range(n)))
+        r = numpy.asarray(tot if p[0] == 0 else x[:n].sum() if p[0] == 1 else x * tot)
     elif name == 'loopcat':
         lname, length = p
         body = term[2]
@@ -1350,6 +1384,8 @@ def arguments(term, acc=None):
         acc = {}
     if term[0] == 'arg':
         acc[term[1][0]] = (tuple(term[1][1]), term[1][2])
+    if term[0] == 'argsum':
+        acc['n'] = ((), 'i')
     for c in term[2:]:
         arguments(c, acc)
     return acc
